@@ -438,6 +438,7 @@ class C07(Plan):
     corr = ("r", "st", "sz", "c")
     spec = ("r-", "c")
 
+    cfgs_quick = ("dev", "rel")     # release-only slips (code inside debug_assert!, wrapping arithmetic) show here
     def gen(self, tier, seed):
         g = Gen(seed)
         ns = Ns(tier, [0, 1, 2, 3, 4, 5], [0, 1, 2, 3, 4, 5, 6, 7])
@@ -471,6 +472,7 @@ class C08(Plan):
     corr = ("r", "sz", "c")
     spec = ("r-", "c")
 
+    cfgs_quick = ("dev", "rel")     # release-only slips (code inside debug_assert!, wrapping arithmetic) show here
     def gen(self, tier, seed):
         g = Gen(seed)
         g.one_step(Ns(tier, [0, 1, 2, 3], [0, 1, 2, 3, 4]), [3],
@@ -491,6 +493,7 @@ class C09(Plan):
     corr = ("r-", "sz", "c", "e")
     spec = ("r-", "c", "e")
 
+    cfgs_quick = ("dev", "rel")     # release-only slips (code inside debug_assert!, wrapping arithmetic) show here
     def gen(self, tier, seed):
         g = Gen(seed)
         g.one_step(Ns(tier, [0, 1, 2, 3, 4], [0, 1, 2, 3, 4, 5]), [3, 4],
@@ -626,6 +629,7 @@ class C13(Plan):
     corr = ("r", "e")
     spec = ("r-", "e")
 
+    cfgs_quick = ("dev", "rel")     # release-only slips (code inside debug_assert!, wrapping arithmetic) show here
     def gen(self, tier, seed):
         g = Gen(seed)
         top = 3 if tier == "quick" else 4
@@ -726,6 +730,7 @@ class C14(Plan):
     spec = ("r-", "c")
     elem = "u8"
 
+    cfgs_quick = ("dev", "rel")     # release-only slips (code inside debug_assert!, wrapping arithmetic) show here
     def gen(self, tier, seed):
         g = Gen(seed)
         g.one_step(Ns(tier, [0, 1, 2, 3, 4], [0, 1, 2, 3, 4, 5, 6]), [1, 2], fam_io(["std"]), elem="u8", suffix=())
@@ -1025,7 +1030,9 @@ class C17(Plan):
         import engine as E
         out = []
         for name, flags in (("no-default-features", "--no-default-features"),
-                            ("alloc-only", "--no-default-features --features alloc")):
+                            ("alloc-only", "--no-default-features --features alloc"),
+                            ("no-default-features, release", "--release --no-default-features"),
+                            ("alloc-only, release", "--release --no-default-features --features alloc")):
             tdir = E.os.path.join(E.CACHE, "target-nostd")
             rc, log = E.sh("cargo build --offline --lib %s" % flags, cwd=E.REPO,
                            env={"CARGO_TARGET_DIR": tdir, "CARGO_NET_OFFLINE": "true"}, timeout=900)
